@@ -70,6 +70,13 @@ def r18_2_lookup(repo: Repo, rep: Report):
     _, wo = repo.fn("config.Config.with_overrides")
     ok = "Config(_parent=self, _source=source, **overrides)" in src(wo)
     rep.check("R18.2", ok, m, wo, "with_overrides -> Config(_parent=self, _source=source, **overrides)", "a new layer must sit on top of the current one with the given source")
+    rebinds = [s_ for s_ in body_walk(wo) if isinstance(s_, (ast.Assign, ast.AugAssign, ast.AnnAssign)) and any(isinstance(n_, ast.Name) and n_.id == "overrides" and isinstance(n_.ctx, ast.Store) for n_ in ast.walk(s_))]
+    muts = [c_ for c_ in body_walk(wo) if isinstance(c_, ast.Call) and isinstance(c_.func, ast.Attribute) and src(c_.func.value) == "overrides" and c_.func.attr in ("pop", "clear", "update", "popitem", "setdefault")]
+    rep.check("R18.2", not rebinds and not muts, m, (rebinds + muts)[0] if (rebinds + muts) else wo, f"with_overrides passes the overrides through unfiltered ({len(rebinds) + len(muts)} rewrites)", "overrides are filtered before the layer is built: explicit falsy values (0, '', empty set, False) of a higher-precedence layer are dropped and a lower layer wins")
+    # a layer's own value is `unset` only when it is None (the dataclass default)
+    mc, cfg = repo.cls("config.Config")
+    argf = repo.fn("config.arg")[1]
+    rep.check("R18.2", "default=None" in src(argf), m, argf, "config.arg: dataclass default is None (unset marker)", "the unset marker must be None")
     # solver-command vs solver
     _, rs = repo.fn("config.Config.resolved_solver_command")
     cmps = [c for c in body_walk(rs) if isinstance(c, ast.Compare) and "solver_command_source" in src(c) and "solver_source" in src(c.comparators[0])]
